@@ -109,6 +109,7 @@ func HandleSelect(deps ServerDeps, conn net.Conn, tag string, parts []string, st
 	}
 
 	state.SelectedMailboxID = mailboxID
+	state.ReadOnly = strings.ToUpper(parts[1]) == "EXAMINE"
 
 	// Get mailbox info (UID validity and next UID)
 	uidValidity, uidNext, err := db.GetMailboxInfoPerUser(targetDB, mailboxID)
@@ -216,12 +217,14 @@ func HandleClose(deps ServerDeps, conn net.Conn, tag string, state *models.Clien
 	// we always perform the expunge operation.
 	// TODO: Add ReadOnly field to ClientState to properly handle EXAMINE
 
-	// Get user database
+	// Get user database.
+	// RFC 3501 6.4.2: no messages are removed, and no error is given, if the mailbox was opened with EXAMINE
 	userDB, err := deps.GetUserDB(state.UserID)
-	if err != nil {
+	if err != nil || state.ReadOnly {
 		// Clear selection and return
 		state.SelectedMailboxID = 0
 		state.SelectedFolder = ""
+		state.ReadOnly = false
 		deps.SendResponse(conn, fmt.Sprintf("%s OK CLOSE completed", tag))
 		return
 	}
